@@ -10,3 +10,22 @@ Definition at_most_one_b (hs : list nat) : bool := Nat.leb (length hs) 1.
 
 Definition exclusive_trace (obs : list (list nat)) : Prop := Forall at_most_one obs.
 Definition exclusive_trace_b (obs : list (list nat)) : bool := forallb at_most_one_b obs.
+
+(** Database level: the file operations of one [Close], each with "is on the LOCK file" and
+    "a second contender could take the directory right before it".  The directory must stay
+    held until the database is done with every other file: no intrusion, and no operation on
+    another file after the first operation on LOCK. *)
+Definition dbop := (bool * bool)%type.      (* (on LOCK, intruded) *)
+
+Fixpoint close_held (released : bool) (ops : list dbop) : Prop :=
+  match ops with
+  | [] => True
+  | (lock, intr) :: r =>
+      intr = false /\ (released = true -> lock = true) /\ close_held (released || lock) r
+  end.
+
+Fixpoint close_held_b (released : bool) (ops : list dbop) : bool :=
+  match ops with
+  | [] => true
+  | (lock, intr) :: r => negb intr && (negb released || lock) && close_held_b (released || lock) r
+  end.
